@@ -51,4 +51,6 @@ VARIANTS += [
                                                                E(CF, "        compiled_patterns = [re.compile(p) for p in anchored_patterns]\n", "        compiled_patterns = [re.compile(p) for p in anchored_patterns]\n        self._ignore_patterns = ignore_patterns\n        self._compiled_patterns = compiled_patterns\n")],
       rule='C04-STATELESS', key='compile_patterns'),
     M('C04', 'refactor-compile-in-local-helper', E(CF, "        compiled_patterns = [re.compile(p) for p in anchored_patterns]\n", "        compile_one = re.compile\n        compiled_patterns = [compile_one(p) for p in anchored_patterns]\n"), kind='refactor'),
+    M('C04', 'revert-fix-F35-greedy-ignore-pattern', E('tdda/referencetest/checkfiles.py', "('' if p.startswith('^') else '^(.*?)')", "('' if p.startswith('^') else '^(.*)')"), rule='C04-ORACLE', key='digits-changed'),
+    M('C04', 'removal-decided-by-regex-search', E('tdda/referencetest/checkfiles.py', "                    if any(r in a for r in remove_lines)\n                ]\n            )\n            expected_removals", "                    if any(re.search(r, a) for r in remove_lines)\n                ]\n            )\n            expected_removals"), rule='C04-ORACLE', key='removal-text'),
 ]
